@@ -22,7 +22,7 @@ for patch in sys.argv[2:]:
     tier = os.environ.get('MUT_TIER', 'quick')
     p = subprocess.run([os.path.join(VERIF, 'check'), pid, tier], env=env, cwd=VERIF, stdout=subprocess.PIPE, stderr=subprocess.STDOUT, text=True)
     lines = [l for l in p.stdout.splitlines() if l.startswith(('VIOLATION', '---', 'OK', 'BUILD-ERROR', 'CHECK-ERROR', 'VACUOUS'))]
-    verdict = 'CAUGHT' if p.returncode == 1 else ('MISSED' if p.returncode == 0 else 'BROKEN')
+    verdict = 'CAUGHT' if (p.returncode == 1 and 'VIOLATION property=' in p.stdout) else ('MISSED' if p.returncode == 0 else 'BROKEN')
     print('%s  %s  rc=%d  %s' % (verdict, os.path.basename(patch), p.returncode, (lines[0] if lines else '')[:300]))
     if verdict != 'CAUGHT':
         rc_all = 1
